@@ -129,18 +129,6 @@ func (idx *IndexWriter) WriteToBoltDatabase(db *bbolt.DB) error {
 		return err
 	}
 
-	if err := bucket.Put(keySchema, buf.Bytes()); err != nil {
-		return err
-	}
-
-	var rowIDbuf [4]byte
-
-	binary.BigEndian.PutUint32(rowIDbuf[:], idx.nextRowID)
-
-	if err := bucket.Put(keyNextRowID, rowIDbuf[:]); err != nil {
-		return err
-	}
-
 	i := 0
 
 	for k, v := range idx.values {
@@ -173,6 +161,21 @@ func (idx *IndexWriter) WriteToBoltDatabase(db *bbolt.DB) error {
 
 			bucket = tx.Bucket([]byte("data"))
 		}
+	}
+
+	// the schema and the row counter are what make the file an index; they are
+	// written in the last transaction so that an interrupted write is never
+	// mistaken for a complete index.
+	if err := bucket.Put(keySchema, buf.Bytes()); err != nil {
+		return err
+	}
+
+	var rowIDbuf [4]byte
+
+	binary.BigEndian.PutUint32(rowIDbuf[:], idx.nextRowID)
+
+	if err := bucket.Put(keyNextRowID, rowIDbuf[:]); err != nil {
+		return err
 	}
 
 	if err := tx.Commit(); err != nil {
